@@ -108,13 +108,30 @@ fn gen_props(g: &mut Rng, max: usize, unique: bool) -> MProps {
     out
 }
 
+fn gen_ts(g: &mut Rng) -> u64 {
+    match g.below(12) {
+        0 => 0,      // Timestamp::MIN
+        1 => TS_MAX, // Timestamp::MAX
+        _ => *g.pick(&OWN_TS),
+    }
+}
+
+/// Extents of every shape: absent, point, forward / empty / BACKWARDS range, MIN / MAX ends.
 fn gen_ext(g: &mut Rng) -> MExt {
-    match g.below(10) {
+    match g.below(12) {
         0..=3 => MExt::None,
-        4..=6 => MExt::Point(*g.pick(&OWN_TS)),
+        4..=6 => MExt::Point(gen_ts(g)),
+        7 => {
+            let a = gen_ts(g);
+            MExt::Range(a, a)
+        }
+        8..=9 => {
+            // end before start: a span whose clock stepped back
+            let (a, b) = (gen_ts(g), gen_ts(g));
+            MExt::Range(a.max(b), a.min(b))
+        }
         _ => {
-            let a = *g.pick(&OWN_TS);
-            let b = *g.pick(&OWN_TS);
+            let (a, b) = (gen_ts(g), gen_ts(g));
             MExt::Range(a.min(b), a.max(b))
         }
     }
@@ -190,6 +207,17 @@ fn gen_fleaf(g: &mut Rng) -> FLeaf {
         21..=28 => return FLeaf::Budget(g.below(40)),
         29..=52 => return gen_typed_leaf(g),
         // leaves that decide on keys of the renamed-key call sites
+        // leaves that decide on the extent beyond its kind
+        63..=72 => {
+            return match g.below(8) {
+                0 => FLeaf::StartPresent,
+                1..=2 => FLeaf::StartEq(gen_ts(g)),
+                3 => FLeaf::HasLen(g.bool()),
+                4 => FLeaf::LenEq(*g.pick(&[0u64, 1, 999_999_998, 999_999_999, 1_000_000_000])),
+                5..=6 => FLeaf::Backwards,
+                _ => FLeaf::TsEq(gen_ts(g)),
+            };
+        }
         53..=62 => {
             let k = g.pick(&SITE_KEYS).to_string();
             return match g.below(5) {
@@ -493,7 +521,8 @@ fn compare_deliveries(got: &[(usize, Snap)], want: &[(usize, Snap)]) -> Option<(
             if gs.len() > ws.len() { "delivered-too-often".to_string() } else { "delivered-too-rarely".to_string() }
         } else {
             let (a, b) = gs.iter().zip(ws.iter()).find(|(a, b)| a != b).unwrap();
-            format!("snapshot:{}", a.diff(b))
+            let d = a.diff(b);
+            if d.starts_with("extent") { format!("{}:{}", d, b.ext.shape()) } else { format!("snapshot:{}", d) }
         };
         let detail = format!(
             "leaf {} received {} event(s) {:?}, the model expects {} {:?}",
@@ -548,7 +577,12 @@ fn check_evaluations(log: &Log, cx: &Cx, want: &[(usize, Snap, bool)], trees: &[
     w.sort();
     for (a, b) in g.iter().zip(w.iter()) {
         if a != b {
-            let class = if a.1 != b.1 { format!("saw:{}", a.1.diff(&b.1)) } else { "answer".to_string() };
+            let class = if a.1 != b.1 {
+                let d = a.1.diff(&b.1);
+                if d.starts_with("extent") { format!("saw:{}:{}", d, b.1.ext.shape()) } else { format!("saw:{}", d) }
+            } else {
+                "answer".to_string()
+            };
             return Some((
                 class,
                 clip(format!("filter leaf {} ({:?}) was shown {} and answered {}; it must be shown {} and answer {}", a.0, cx.fleaves[a.0], a.1.json(), a.2, b.1.json(), b.2)),
@@ -730,6 +764,7 @@ where
     for (ei, (raw, clock)) in case.events.iter().enumerate() {
         clk.set(*clock);
         let full = raw.built(ambient, *clock);
+        r.observe(&format!("event-extent:{}", raw.ext.shape()), 1);
 
         // ---- the filter trees evaluated directly on the built event, through several views
         for (which, tree) in [("runtime-filter", Some(&case.f)), ("call-site-filter", case.w.as_ref())] {
